@@ -75,6 +75,35 @@ def _run_source(s):
     return ("ok", tuple(int(v) for v in got), src)
 
 
+class _SharedParse:
+    """For the long depth >= 2 programs the (pure, ~0.1 s) parse is shared between select() and
+    select_expression(): both methods still run their own code, but on one parse result.
+    Depth-1, nesting, whitespace and malformed strings are parsed separately by each method."""
+
+    def __init__(self):
+        import mdtraj.core.topology as T
+        self.T = T
+        self.orig = T.parse_selection
+        self.last = None
+        self.on = False
+        T.parse_selection = self
+
+    def __call__(self, s):
+        if not self.on:
+            return self.orig(s)
+        if self.last is None or self.last[0] != s:
+            try:
+                self.last = (s, "r", self.orig(s))
+            except Exception as e:               # noqa: BLE001
+                self.last = (s, "e", e)
+        if self.last[1] == "e":
+            raise self.last[2]
+        return self.last[2]
+
+
+_SHARE = None
+
+
 def _in_thread(fn, arg):
     """Run fn(arg) in a fresh thread: constant, shallow base recursion depth (like a user script)."""
     box = []
@@ -108,6 +137,10 @@ def _eval_programs(batch):
     n_atoms = len(_ATOMS)
     for s, mode in batch:
         rec = {"s": s, "viol": []}
+        _SHARE.on = mode == "program-shared"
+        _SHARE.last = None
+        if _SHARE.on:
+            mode = "program"
         sel = _run_select(s)
         rec["sel"] = sel if sel[0] != "ok" else ("ok", sel[1])
         try:
@@ -173,8 +206,11 @@ def _worker(batch):
 # fixture
 # ------------------------------------------------------------------------------------------------
 def _setup():
-    global _TOP, _ATOMS
+    global _TOP, _ATOMS, _SHARE
     from vlib.refmodels import selection_ref as R
+    if _SHARE is None:
+        _SHARE = _SharedParse()
+    _SHARE.on = False
     _TOP = R.build_topology()
     _ATOMS, _bonds = R.atom_table()
     assert _TOP.n_atoms == len(_ATOMS)
@@ -271,17 +307,22 @@ def _space(ctx, R, G):
     selfcheck(t2, p2, "depth2")
     n0 = len(items)
     for s, k, _pres in p2:
-        add(s, "program", ("d2", k) if k is not None else None)
+        add(s, "program-shared", ("d2", k) if k is not None else None)
     stats["depth2_trees"] = len(t2)
     stats["depth2_strings"] = len(items) - n0
 
-    lv3 = G.leaves(G.reps("3q" if ctx.quick else "3", ctx.seed))
-    t3 = G.trees3(lv3)
+    if ctx.quick:
+        lv3 = G.leaves(G.reps("3q", ctx.seed))
+        t3 = G.triples(lv3)
+    else:
+        t3 = G.trees3(G.leaves(G.reps("3", ctx.seed)))
+        have = {G.key(t) for t in t3}
+        t3 += [t for t in G.triples(G.leaves(G.reps("3t", ctx.seed))) if G.key(t) not in have]
     p3 = G.programs(t3, ("min", "flat", "full"))
     selfcheck(t3, p3, "depth3")
     n0 = len(items)
     for s, k, _pres in p3:
-        add(s, "program", ("d3", k) if k is not None else None)
+        add(s, "program-shared", ("d3", k) if k is not None else None)
     stats["depth3_trees"] = len(t3)
     stats["depth3_strings"] = len(items) - n0
     stats["depth3_flat_renderings_reassociated"] = sum(1 for _s, _k, pres in p3 if not pres)
@@ -334,6 +375,7 @@ def run(ctx):
     for s, mode in items:
         rec = results[s]
         n_eval += 1
+        mode = "program" if mode == "program-shared" else mode
         by_mode[mode] = by_mode.get(mode, 0) + 1
         sel = rec["sel"]
         if mode == "malformed":
@@ -383,9 +425,11 @@ def run(ctx):
         "distinct_nontrivial": len(nontrivial),
         "distinct_selected_sets": len(distinct_sets),
         "rule": "every program of the grammar described in vlib/refmodels/selection_gen.py (depth 1 in every spelling, depth 2 "
-                "over 23 representative leaves, depth 3 over %d leaves, all connective spellings and parenthesisations) plus "
+                "over 23 representative leaves, depth 3 %s, all connective spellings and parenthesisations) plus "
                 "nesting, whitespace and malformed strings; each distinct string is executed once; non-trivial = the reference "
-                "selects neither no atom nor all %d atoms" % (3 if ctx.quick else 5, len(_ATOMS)),
+                "selects neither no atom nor all %d atoms" % (
+                    "three-leaf slice over 3 leaves" if ctx.quick else "complete over 4 leaves + three-leaf slice over 5 leaves",
+                    len(_ATOMS)),
         "samples": samples,
         "exhaustive": True,
         "strings_by_mode": by_mode,
@@ -400,6 +444,7 @@ def run(ctx):
         "keyword_aliases": sorted(R.ALIAS), "operator_spellings": sorted(R.RESERVED),
         "depth2_leaves": [t for _i, t in G.reps("2", ctx.seed)],
         "depth3_leaves": [t for _i, t in G.reps("3q" if ctx.quick else "3", ctx.seed)],
+        "depth3_three_leaf_slice_leaves": [t for _i, t in G.reps("3q" if ctx.quick else "3t", ctx.seed)],
         "n_atoms": len(_ATOMS),
     }
     cov.update(stats)
